@@ -303,6 +303,10 @@ def _rd_mc():
              constants=dict(Underflow=False), quick=dict(MaxRec=3, MaxBody=3, MaxSlack=3), thorough=dict(MaxRec=5, MaxBody=4, MaxSlack=6)),
         dict(name="MC_Reader_neg_underflow", module="MC_Reader", invariants=["NoPanic"], expect_violation="NoPanic",
              constants=dict(Underflow=True, MaxRec=2, MaxBody=2, MaxSlack=1)),
+        dict(name="MC_LineReader_transfac", module="MC_LineReader", invariants=["ExactRecord", "Complete"], actions=["TNew", "TNext"],
+             constants=dict(Format='"transfac"'), quick=dict(MaxRec=3, MaxBody=3), thorough=dict(MaxRec=5, MaxBody=4)),
+        dict(name="MC_LineReader_uniprobe", module="MC_LineReader", invariants=["ExactRecord", "Complete"], actions=["UNext"],
+             constants=dict(Format='"uniprobe"'), quick=dict(MaxRec=3, MaxBody=3), thorough=dict(MaxRec=5, MaxBody=4)),
     ]
 PROPS["C14"] = dict(mc=_rd_mc(), record=True, trace="Trace_C14", shards=12,
     level_text="A-layer: a reader is a queue of the abstract motifs the file was rendered from; every request returns exactly "
@@ -316,8 +320,8 @@ PROPS["C14"] = dict(mc=_rd_mc(), record=True, trace="Trace_C14", shards=12,
                "identically under three schedules.",
     level_note="Well-formed means the canonical syntax of the four renderers in harness/lmconform/src/readers.rs (the syntax "
                "shown in the crate documentation and test files); they are trusted. TRANSFAC counts are kept below 10^5 "
-               "(stored as f32 by the library). MC covers the JASPAR-style buffer only; the line-based readers are covered "
-               "by trace validation. Trusted: TLC, Json module.",
+               "(stored as f32 by the library). MC covers the JASPAR-style buffer/start/compaction bookkeeping and the TRANSFAC (buffer/last, version block) "
+               "and UniPROBE (pending-line flag, blank lines) line machines at token level; record syntax is covered by trace validation. Trusted: TLC, Json module.",
     rule="impl->spec: one history per (format, alphabet, motif list, schedule): rd_new then rd_next until none; "
          "distinct_nontrivial = distinct (format, alphabet, file bytes, schedule).",
     assumptions=["std::io::BufRead::read_until / read_line honour their contract for any fill_buf chunking"])
